@@ -330,7 +330,21 @@ def _belt_worker(args):
     cases = list(corpus) + [belt.gen_case(rng) for _ in range(n)]
     if odd:
         cases += [belt.gen_odd_length(rng) for _ in range(max(8, n // 20))]
+        cases += [belt.gen_real_case(rng) for _ in range(max(16, n // 4))]
     out = dict(evals=0, tags=collections.Counter(), sigs=set(), dis=[], viol=[], samples=[], ops=collections.Counter())
+    real = [c for c in cases if c.get("real")]
+    cases = [c for c in cases if not c.get("real")]
+    for c in real:
+        # irregular real-valued times: the implementation alone, C12 clauses with a tolerance
+        r = belt.run_impl(c)
+        out["evals"] += 1
+        out["tags"].update(["real-valued/" + _belt_tag(c)])
+        seen = set()
+        for prop, clause, msg in belt.oracle_real(c, r):
+            tagc = "[%s/real-valued/%s]" % (_belt_tag(c), clause)
+            if prop == pid and tagc not in seen:
+                seen.add(tagc)
+                out["viol"].append(dict(**{"class": "belt"}, message=tagc + " " + msg, case=c))
     for lo in range(0, len(cases), 300):
         for r in belt.run_batch(cases[lo:lo + 300]):
             c = r["case"]
@@ -405,7 +419,9 @@ def run_belt(pid, tier, seed):
                    "put, interrupt, resume, arrival at the exit and get recorded in kernel order and replayed on the extracted model "
                    "TBelt (legality of every step, admission outcomes, items on the belt and at the exit after every step); the C12 / "
                    "C13 clauses evaluated on the implementation's own times; distinct = distinct (kind, mode, situations, step-kind sequence)"
-                   + ("; plus a stream of continuous belts whose length is not a whole number of item lengths (known finding)" if pid == "C12" else ""))
+                   + ("; plus a stream of continuous belts whose length is not a whole number of item lengths (known finding) and a stream with "
+                      "irregular real-valued (decimal) speeds, slot delays, arrival gaps and service times, run on the implementation "
+                      "alone with the C12 clauses evaluated up to 1e-6" if pid == "C12" else ""))
     res["distribution"] = dict(runs_reaching=dict(tags), recorded_steps=dict(ops))
     res["domain"] = "ConveyorBelt (continuous, slotted) over both BeltStore classes, driven through reserve_put/put/reserve_get/get"
     return res
